@@ -50,6 +50,22 @@ class Loader(yaml.SafeLoader):
         self.__recognizer = Recognizer(
                 self._registered_classes, self._additional_classes)
 
+    def fetch_more_tokens(self) -> Any:
+        """Hook used by PyYAML's scanner to read the next token(s).
+
+        PyYAML's scanner lets built-in exceptions escape for an escape
+        sequence beyond the Unicode range (``"\\U00110000"``) and for
+        a directive number with thousands of digits. Report those as
+        the YAML errors they are.
+        """
+        try:
+            return super().fetch_more_tokens()
+        except (ValueError, OverflowError) as e:
+            raise yaml.scanner.ScannerError(
+                    'while scanning the YAML text', None,
+                    'found an invalid character code or number ({})'.format(
+                        e), self.get_mark())
+
     def get_single_node(self) -> yaml.Node:
         """Hook used when loading a single document.
 
